@@ -11,7 +11,7 @@ def run(ctx):
     if not exe:
         ctx.corr_broken.append({"what": "platform conformance harness does not compile against the repository", "log": log[-2000:]})
         return
-    rc, out, err = C.sh([exe], timeout=200)
+    rc, out, err = C.sh([exe], timeout=700)
     lines = [l for l in out.split("\n") if l]
     ctx.cov["platform_conformance"] = lines
     for l in lines:
